@@ -1,6 +1,7 @@
 package props
 
 import (
+	"bytes"
 	"fmt"
 
 	"colverif/eng"
@@ -18,6 +19,7 @@ import (
 
 type writersScenario struct {
 	name    string
+	snap    bool // a snapshot runs beside the writers (its recorder is a second sink)
 	keyed   bool
 	threads [][]model.Act
 	fails   []bool
@@ -34,6 +36,9 @@ func writersScenarios() []writersScenario {
 		{name: "merge-both-blocks||put+delete", threads: [][]model.Act{
 			{put(R0, a(V(1), true)), put(R1, a(V(1), true))},
 			{put(R0, a(V(10), false), b(V(1))), {Op: "del", Off: R1}}}},
+		{name: "merge-both-blocks||put||snapshot", snap: true, threads: [][]model.Act{
+			{put(R0, a(V(1), true)), put(R1, a(V(1), true))},
+			{put(R0, a(V(10), false), b(V(1)))}}},
 		{name: "put-a+b||put-a||merge-s", threads: [][]model.Act{
 			{put(R0, a(V(7), false), b(V(1)))},
 			{put(R0, a(V(5), false))},
@@ -80,11 +85,15 @@ func (ws writersScenario) instance(prop string) func() *eng.SchedInstance {
 		}
 		// which thread emitted which commit: recorded by wrapping the recorder is not
 		// possible from outside, so the emitting thread is inferred from the apply order
+		bodies := sw.bodies()
+		if ws.snap {
+			bodies = append(bodies, func() { var b bytes.Buffer; sw.w.C.Snapshot(&b) })
+		}
 		return &eng.SchedInstance{
-			Threads: sw.bodies(),
+			Threads: bodies,
 			Close:   sw.w.Close,
 			Check: func(res *vsched.Result) (string, []eng.Violation) {
-				vs := threadPanics(res, sw.names())
+				vs := threadPanics(res, append(sw.names(), "S"))
 				w := sw.w
 				outcome := ""
 				if prop == "C15" {
